@@ -76,7 +76,7 @@ type Sorts struct {
 	prog   *Program
 	strs   map[string]string // string literal -> const name
 	strOrd []string
-	// named-type qualifier for naming
+	refLinks map[string]types.Type // recursive pointer sorts -> pointee Go type
 }
 
 var (
@@ -188,6 +188,9 @@ func (ss *Sorts) Of(t types.Type) *Sort {
 		return s
 	}
 	s := ss.build(t, key)
+	if s.Kind == KOpaque && strings.HasPrefix(s.Name, "U_Ref_") {
+		return s // representation used only inside the recursive type under construction; not memoized
+	}
 	ss.byKey[key] = s
 	return s
 }
@@ -233,7 +236,12 @@ func (ss *Sorts) build(t types.Type, key string) *Sort {
 			return SBig
 		}
 		if ss.inprog[types.TypeString(el, nil)] {
-			return ss.opaque("Ref_"+shortTypeName(el), t)
+			r := ss.opaque("Ref_"+shortTypeName(el), t)
+			if ss.refLinks == nil {
+				ss.refLinks = map[string]types.Type{}
+			}
+			ss.refLinks[r.Name] = el
+			return r
 		}
 		es := ss.Of(el)
 		if es.Kind == KOpaque {
@@ -481,6 +489,49 @@ func (ss *Sorts) StrDecls() string {
 	return b.String()
 }
 
+// BoxFn declares (once) the injection of a concrete sort into an opaque interface sort and its partial inverse.
+func (ss *Sorts) BoxFn(from, to *Sort) (string, string) {
+	fn := "box_" + mangle(from.Name) + "_" + mangle(to.Name)
+	un := "un" + fn
+	key := "boxfn:" + fn
+	if _, ok := ss.byName[key]; !ok {
+		ss.byName[key] = to
+		ss.decls = append(ss.decls, fmt.Sprintf("(declare-fun %s (%s) %s)\n(declare-fun %s (%s) %s)\n(assert (forall ((v %s)) (! (= (%s (%s v)) v) :pattern ((%s v)))))",
+			fn, from.Name, to.Name, un, to.Name, from.Name, from.Name, un, fn, fn))
+	}
+	return fn, un
+}
+
+// RefTarget returns the pointee sort and the boxed pointer sort of a recursive reference sort.
+func (ss *Sorts) RefTarget(ref *Sort) (*Sort, *Sort) {
+	el, ok := ss.refLinks[ref.Name]
+	if !ok {
+		return nil, nil
+	}
+	return ss.Of(el), ss.Of(types.NewPointer(el))
+}
+
 func (ss *Sorts) Decls() string {
-	return strings.Join(ss.decls, "\n") + "\n"
+	var b strings.Builder
+	var names []string
+	for n := range ss.refLinks {
+		names = append(names, n)
+	}
+	sort.Strings(names)
+	// resolving targets may create new sorts: do it before joining decls
+	type lk struct{ ref, tgt, ptr string }
+	var lks []lk
+	for _, n := range names {
+		t, p := ss.RefTarget(ss.byName[n])
+		if t != nil && p != nil && p.Kind == KPtr {
+			lks = append(lks, lk{n, t.Name, p.Name})
+		}
+	}
+	b.WriteString(strings.Join(ss.decls, "\n") + "\n")
+	for _, l := range lks {
+		fmt.Fprintf(&b, "(declare-fun deref_%s (%s) %s)\n(declare-fun refof_%s (%s) %s)\n", l.ref, l.ref, l.tgt, l.ref, l.ptr, l.ref)
+		fmt.Fprintf(&b, "(assert (= (refof_%s pnil_%s) nil_%s))\n", l.ref, l.ptr, l.ref)
+		fmt.Fprintf(&b, "(assert (forall ((v %s)) (! (and (not (= (refof_%s (pmk_%s v)) nil_%s)) (= (deref_%s (refof_%s (pmk_%s v))) v)) :pattern ((refof_%s (pmk_%s v))))))\n", l.tgt, l.ref, l.ptr, l.ref, l.ref, l.ref, l.ptr, l.ref, l.ptr)
+	}
+	return b.String()
 }
